@@ -78,6 +78,19 @@ func writeEvidence(prop, tier string, seed uint64, tc tierCfg, a *agg, buildS, e
 		"explore_s":                  exploreS,
 		"notes":                      a.notes,
 	}
+	if prop == "C12" {
+		cov["exhaustive"] = true
+		cov["exhaustive_over"] = "for every generated stream: every truncation offset and every single-bit flip at every byte (plus byte overwrites 0x00/0xFF/random at every position, all segment drop/duplicate/adjacent-swap edits); sampled: stream shapes, multi-byte damage, writer-failure offsets"
+		var streams, loads int64
+		streams = a.runs
+		loads = a.evals
+		cov["streams"] = streams
+		cov["fault_variants_loaded"] = loads
+		cov["truncation_offsets"] = a.probes["c12.truncations"]
+		cov["bit_flips"] = a.probes["c12.bit-flips"]
+		cov["byte_overwrites"] = a.probes["c12.byte-overwrites"]
+		cov["segment_edits"] = a.probes["c12.segment-edits"]
+	}
 	ev := map[string]any{
 		"property_id": prop,
 		"tier":        tier,
